@@ -103,6 +103,12 @@ def run(run: common.Run):
         s = np.array([[[rng.randint(20, 200) for _ in range(src.w)] for _ in range(src.h)] for _ in range(nb)], float)
         r = np.array([[[rng.randint(30, 150) for _ in range(ref.w)] for _ in range(ref.h)] for _ in range(nb)], float)
         sv, rv = holes(rng, src.h, src.w), holes(rng, ref.h, ref.w)
+        if dtype == 'float32':
+            # a valid pixel within 5e-6 (relative) of the numeric nodata value -9999 of some encodings, but not equal to it, is a
+            # valid pixel in every encoding
+            for arr, v in ((s, sv), (r, rv)):
+                rr, cc = np.argwhere(v)[len(np.argwhere(v)) // 2]
+                arr[:, rr, cc] = -9999.05
         encs = encodings(dtype)
         if dtype != 'float32' and nb not in (1, 3):
             encs = [e for e in encs if e[0] != 'alpha']
